@@ -1,0 +1,18 @@
+//go:build verif
+
+// Contracts for the command-line front end, read by /verif/govc (contract-based deductive verification).
+// Comments only; compiled only with -tags verif.
+package main
+
+// C19: the command line touches the output path only through the generator it dispatches to: it opens and reads the INPUT
+// file, hands its text and the output path to TemplateGenFromString / TsGenFromString, and panics on an error. It never
+// creates, truncates or writes the output file itself.
+//@ func genCommonFunc
+//@ props C19
+//@ effects_only
+//@ effect io_only os.Open, io/ioutil.ReadAll, ioutil.ReadAll, (*os.File).Close, <dynamic call gen>, panic, string
+
+//@ func cmdGenerate
+//@ props C19 C08
+//@ effects_only
+//@ effect io_only genCommonFunc, main.genCommonFunc, fmt.Println
